@@ -282,6 +282,62 @@ def run(repo, rep, tier):
                     'colon-check', SM, init.node.lineno,
                     'the manager id is not rejected when it contains the '
                     'field separator ":"')
+    # the second field of an owned Name (filter_id / destination_id) is put
+    # between the same separators: every way through the public method that
+    # reaches the creation has rejected a ':' in it (or has no id at all -
+    # the permanent case, where the caller gives the whole name).  The two
+    # adders are siblings; a check that only one of them has is the defect
+    # (an owned destination 'a:b' is created as pywbemdestination:<mgr>:a:b
+    # and not recognised by the discovery pattern of add_server()).
+    for pub, helper in (('add_filter', '_create_filter'),
+                        ('add_destination', '_create_destination')):
+        pf = mgr.methods.get(pub)
+        if pf is None:
+            raise AnalysisError('WBEMSubscriptionManager.%s vanished' % pub)
+        idp = next((p_ for p_ in pf.params
+                    if p_.endswith('_id') and p_ != 'server_id'), None)
+        if idp is None:
+            raise AnalysisError('%s: id parameter not found' % pub)
+        r4.sites += 1
+        r4.functions.add(pf.fq)
+        ppaths = _rp(_Flat(pf), max_paths=400)
+        if not ppaths:
+            raise AnalysisError('%s: paths not enumerable' % pub)
+
+        def id_safe(p_):
+            for t0, p0 in p_.facts:
+                for t, pol in _GW._atoms(t0, p0):
+                    if isinstance(t, ast.Compare) and len(t.ops) == 1:
+                        if const_str(t.left) == ':' and \
+                                norm(t.comparators[0]) == idp and (
+                                    (isinstance(t.ops[0], ast.In) and
+                                     not pol) or
+                                    (isinstance(t.ops[0], ast.NotIn) and
+                                     pol)):
+                            return True
+                        if norm(t.left) == idp and \
+                                isinstance(t.comparators[0], ast.Constant) \
+                                and t.comparators[0].value is None and (
+                                    (isinstance(t.ops[0], ast.Is) and pol) or
+                                    (isinstance(t.ops[0], ast.IsNot) and
+                                     not pol)):
+                            return True
+            return False
+        # (every way through the method that returns has created the
+        # instance)
+        reach = list(ppaths)
+        ok = bool(reach) and all(id_safe(p_) for p_ in reach)
+        r4.ob(ok, pub + ':colon', {'id_parameter': idp,
+                                   'paths_to_creation': len(reach)})
+        if not ok:
+            rep.finding(r4, pf.qualname, "':' in %s" % idp, 'colon-check',
+                        SM, pf.node.lineno,
+                        '%s reaches %s() with an id that may contain the '
+                        'field separator ":": the owned instance gets a Name '
+                        'with an extra field, which the discovery pattern of '
+                        'add_server() does not recognise - a restarted '
+                        'manager does not find (and never removes) it'
+                        % (pub, helper))
 
     # ---- R2 ---------------------------------------------------------------
     lists = {'_create_destination': 'self._owned_destinations',
